@@ -34,6 +34,10 @@ pub enum Decl {
     Plain,
     PathAttr,
     CfgIf,
+    /// `#[cfg_attr(pred, path = "alt.rs")] mod m;`: this node is the default file, `alts` are the candidates
+    CfgAttr,
+    /// a candidate file of a `CfgAttr` declaration (listed in the declaring node's `alts`, not in `children`)
+    CfgAlt,
 }
 
 #[derive(Clone, Copy, PartialEq, Eq, Debug)]
@@ -142,6 +146,10 @@ pub struct Node {
     pub fault_at: usize,
     pub bogus: Option<Bogus>,
     pub long_call: bool,
+    /// `Decl::CfgAttr`: the nested-path candidates, in attribute order
+    pub alts: Vec<usize>,
+    /// `Decl::CfgAttr`: there is no default file (`m.rs` / `m/mod.rs` do not exist): the node has no file
+    pub absent: bool,
     // filled by `layout`
     pub rel: PathBuf,
     pub file_dir: PathBuf,
@@ -200,6 +208,8 @@ fn new_node(name: String, decl: Decl, rng: &mut Rng) -> Node {
         fault_at: rng.below(4),
         bogus: None,
         long_call: rng.chance(1, 2),
+        alts: vec![],
+        absent: false,
         rel: PathBuf::new(),
         file_dir: PathBuf::new(),
         child_dir: PathBuf::new(),
@@ -302,7 +312,10 @@ impl Crate {
     pub fn visit_order(&self) -> Vec<usize> {
         fn go(c: &Crate, i: usize, out: &mut Vec<usize>) {
             for ch in &c.nodes[i].children {
-                out.push(*ch);
+                out.extend(c.nodes[*ch].alts.iter().copied());
+                if !c.nodes[*ch].absent {
+                    out.push(*ch);
+                }
                 go(c, *ch, out);
             }
         }
@@ -350,6 +363,7 @@ impl Crate {
             for ch in c.nodes[i].children.clone() {
                 let name = c.nodes[ch].name.clone();
                 match c.nodes[ch].decl {
+                    Decl::CfgAlt => {}
                     Decl::PathAttr => {
                         let attr = format!("{}_p/{}_impl.rs", name, name);
                         let rel = file_dir.join(&attr);
@@ -368,6 +382,15 @@ impl Crate {
                         }
                         c.nodes[ch].child_dir = child_dir.join(&name);
                     }
+                }
+                // nested-path candidates: `self.directory.path.join(path)`, the directory of the declaring file
+                for (k, alt) in c.nodes[ch].alts.clone().into_iter().enumerate() {
+                    let attr = format!("{}_alt{}.rs", name, k);
+                    let rel = file_dir.join(&attr);
+                    c.nodes[alt].attr_path = attr;
+                    c.nodes[alt].file_dir = file_dir.clone();
+                    c.nodes[alt].child_dir = file_dir.clone();
+                    c.nodes[alt].rel = rel;
                 }
                 go(c, ch);
             }
@@ -405,6 +428,16 @@ impl Crate {
             Decl::Plain => format!("{}mod   {};", if n.id % 2 == 0 { "pub  " } else { "" }, n.name),
             Decl::PathAttr => format!("#[path = \"{}\"]\nmod   {};", n.attr_path, n.name),
             Decl::CfgIf => format!("cfg_if::cfg_if! {{ if #[cfg(unix)] {{ mod  {}; }} else {{ fn  {}_alt(){{}} }} }}", n.name, n.name),
+            Decl::CfgAttr => {
+                let preds = ["unix", "windows", "feature = \"alt\"", "any()", "not(unix)"];
+                let mut t = String::new();
+                for (k, a) in n.alts.iter().enumerate() {
+                    t.push_str(&format!("#[cfg_attr({}, path = \"{}\")]\n", preds[(n.id + k) % preds.len()], self.nodes[*a].attr_path));
+                }
+                t.push_str(&format!("mod   {};", n.name));
+                t
+            }
+            Decl::CfgAlt => String::new(),
         }
     }
 
@@ -484,7 +517,22 @@ impl Crate {
         order.extend(self.visit_order());
         for i in order {
             let n = &self.nodes[i];
-            let mut ch: Vec<String> = n.children.iter().map(|c| format!("f{}", self.nodes[*c].id)).collect();
+            if n.absent {
+                continue;
+            }
+            let mut ch: Vec<String> = n
+                .children
+                .iter()
+                .map(|c| {
+                    let cn = &self.nodes[*c];
+                    if cn.decl == Decl::CfgAttr {
+                        let alts: Vec<String> = cn.alts.iter().map(|a| self.nodes[*a].id.to_string()).collect();
+                        format!("c{}/{}", alts.join("+"), if cn.absent { "n".to_string() } else { format!("f{}", cn.id) })
+                    } else {
+                        format!("f{}", cn.id)
+                    }
+                })
+                .collect();
             if let Some(b) = &n.bogus {
                 let w = match b.kind {
                     ModFault::Both => "m",
@@ -514,6 +562,9 @@ impl Crate {
         let d = base.join(&self.dir);
         std::fs::create_dir_all(&d).unwrap();
         for n in &self.nodes {
+            if n.absent {
+                continue;
+            }
             let p = d.join(&n.rel);
             std::fs::create_dir_all(p.parent().unwrap()).unwrap();
             std::fs::write(&p, &n.bytes).unwrap();
@@ -1187,6 +1238,55 @@ fn build_ignore_case(rng: &mut Rng, n: usize, ca: &str, cb: &str, a_first: bool,
     }
 }
 
+// ------------------------------------------------------------------------------------------ cfg_attr(path) modules
+
+/// A crate in which one module is declared with nested paths: `#[cfg_attr(pred, path = "m_alt0.rs")] mod m;`
+/// with `n_alts` candidates that exist, a default file `m.rs` / `m/mod.rs` (`with_default`) or none, declared in
+/// the root as its last module (`last`: the files of this declaration are the last ones the resolver parses) or
+/// at a random place of a random file.  `target`: which file carries the fault of class `class` (0.. = candidate,
+/// usize::MAX = the default file; "ok" = none).
+fn build_cfgattr_case(rng: &mut Rng, n: usize, class: &str, n_alts: usize, with_default: bool, target: usize, last: bool, mode: Mode) -> Case {
+    let rng_state = rng.0;
+    let depth = rng.range(1, 3);
+    let mut c = gen_crate(rng, "f", "fm", depth, true);
+    let host = if last { 0 } else { *rng.pick(&(0..c.nodes.len()).filter(|i| c.nodes[*i].decl != Decl::PathAttr).collect::<Vec<_>>()) };
+    let x = c.nodes.len();
+    let mut xn = new_node(format!("fm{}", x), Decl::CfgAttr, rng);
+    xn.absent = !with_default;
+    c.nodes.push(xn);
+    for k in 0..n_alts {
+        let a = c.nodes.len();
+        c.nodes.push(new_node(format!("fm{}a{}", x, k), Decl::CfgAlt, rng));
+        c.nodes[x].alts.push(a);
+    }
+    if last {
+        c.nodes[host].children.push(x);
+    } else {
+        let at = rng.below(c.nodes[host].children.len() + 1);
+        c.nodes[host].children.insert(at, x);
+    }
+    let k = rng.below(64);
+    let t = if target == usize::MAX { x } else { c.nodes[x].alts[target % n_alts.max(1)] };
+    if !(c.nodes[t].absent) {
+        c.nodes[t].fault = class_fault(class, k);
+    }
+    c.layout();
+    let fails = (class != "ok" && class != "w" && !c.nodes[t].absent) || (!with_default && n_alts == 0);
+    let mut h = healthy(rng, "h", "hm");
+    h.layout();
+    let (roots, fi) = if rng.chance(1, 2) { (vec![Root::Crate(h), Root::Crate(c)], 1) } else { (vec![Root::Crate(c), Root::Crate(h)], 0) };
+    Case {
+        n,
+        kind: format!("cfg_attr:{}:alts={},default={},fault-in-{}", class, n_alts, with_default, if target == usize::MAX { "default".to_string() } else { format!("candidate{}", target) }),
+        pos: if last { "last".into() } else { "anywhere".into() },
+        mode,
+        roots,
+        faulty: if fails { Some(fi) } else { None },
+        abs_paths: rng.chance(1, 2),
+        rng_state,
+    }
+}
+
 // ------------------------------------------------------------------------------------------ the bookkeeping, in process
 
 use rustfmt_nightly::verif_hooks::parse_errors as pe;
@@ -1371,7 +1471,7 @@ pub fn fill_expected(cases: &mut [Case], o: &mut Outcome) {
             for (ri, r) in case.roots.iter().enumerate() {
                 if let Root::Crate(c) = r {
                     for (ni, n) in c.nodes.iter().enumerate() {
-                        if (n.fault.is_some() && !matches!(n.fault, Some(FileFault::Warning(_)))) || n.skip_attr {
+                        if (n.fault.is_some() && !matches!(n.fault, Some(FileFault::Warning(_)))) || n.skip_attr || n.absent {
                             continue;
                         }
                         if pass == 1 && !n.want_formatted {
@@ -1505,6 +1605,24 @@ pub fn run(tier: &str, seed: u64, out: &Path) -> i32 {
                     }
                     let n = cases.len();
                     cases.push(build_ignore_case(&mut rng, n, ca, cb, true, sp, if shape % 2 == 0 { Mode::Files } else { Mode::Backup }, shape));
+                }
+            }
+        }
+    }
+    // ---- modules declared with nested paths (`#[cfg_attr(pred, path = "..")] mod m;`): fault class x where
+    //      (a candidate / the default file) x default file present or not x last module of the crate or not
+    for rep in 0..reps {
+        let mut idx = rep;
+        for class in ["ok", "r", "s", "u", "x", "f"] {
+            for (n_alts, with_default, target) in [(1usize, true, usize::MAX), (1, true, 0), (2, true, 1), (2, false, 0), (1, false, 0), (2, true, usize::MAX)] {
+                for last in [true, false] {
+                    idx += 1;
+                    if class == "ok" && idx % 2 == 0 {
+                        continue;
+                    }
+                    let n = cases.len();
+                    let mode = [Mode::Files, Mode::Backup, Mode::Check, Mode::Files][idx % 4];
+                    cases.push(build_cfgattr_case(&mut rng, n, class, n_alts, with_default, target, last, mode));
                 }
             }
         }
